@@ -43,7 +43,7 @@ KSI_IMPORT_TLV_TEMPLATE(KSI_PublicationRecord);
 #define CHUNK 16                 /* fault indices per case */
 #define PAIR_MAX_N 60
 #define SINGLE_MAX 5000
-#define QUICK_MAX 400
+#define QUICK_MAX 800
 
 /* ------------------------------------------------------------------ fault control */
 static long g_fault_n, g_fault_hits;
